@@ -114,6 +114,15 @@ PoolC02cont(hostAxes, contAxes) ==
     \cup {Path(FALSE, <<Step(hax, hnt, <<p, q>>), Step(cax, NTAny, <<>>)>>) :
         hax \in hostAxes, hnt \in TestsA, cax \in {"descendant", "descendant-or-self", "child"}, p \in ContPreds, q \in ContPreds}
 
+\* count() of a two-step path that reaches a node from several inputs (the recorded finding KF-C02-2 lives here)
+PoolC02count(hostAxes) ==
+    UNION {HostForms(Step(hax, NTAny, <<Bin(op, Call("count", <<pp>>), N(k))>>)) : hax \in hostAxes, op \in {"=", ">", "<"}, k \in 1 .. 3,
+             pp \in {Path(FALSE, <<Step("ancestor-or-self", NTNode, <<>>), Step("following", NTAny, <<>>)>>),
+                     Path(FALSE, <<Step("child", NTAny, <<>>), Step("parent", NTAny, <<>>)>>),
+                     Path(FALSE, <<Step("descendant", NTAny, <<>>), Step("ancestor", NTAny, <<>>)>>),
+                     Path(FALSE, <<Step("child", NTAny, <<>>), Step("child", NTAny, <<>>)>>),
+                     Path(FALSE, <<Step("child", NTAny, <<>>), Step("following-sibling", NTAny, <<>>)>>)}}
+
 \* parenthesised path followed by a boolean predicate:  (path)[p]
 PoolC02paren(paths, A) == {Filter(pa, <<p>>, <<>>) : pa \in paths, p \in A}
 \* ... followed by several predicates, and by further steps
